@@ -11,7 +11,11 @@ from edgegraph.structure import Vertex, Universe, DirectedEdge, UnDirectedEdge, 
 from . import probes as P, world as W
 
 
-class SubSubVertex(P.SubVertex):
+class _VMixin:
+    """a plain mix-in placed first: options of the nearest configured class along the MRO apply"""
+
+
+class SubSubVertex(_VMixin, P.SubVertex):
     pass
 
 
@@ -38,12 +42,15 @@ def sequences(n):
     return out
 
 
-def label(n):
-    return f"n{n}"
+LABEL_STYLES = ["n{}", "n{} ", "n{},"]       # plain, ending in a blank, ending in a comma
+
+
+def label(n, style=0):
+    return LABEL_STYLES[style].format(n)
 
 
 # ---- C16 ------------------------------------------------------------------------------------
-def plain_probe(w, S, M, sorted_, default_repr, rankmode):
+def plain_probe(w, S, M, sorted_, default_repr, rankmode, style=0):
     from edgegraph.output import plaintext
     NO = len(S["vl"])
     if rankmode == 0:
@@ -61,9 +68,9 @@ def plain_probe(w, S, M, sorted_, default_repr, rankmode):
         for ob in objs:
             lab[repr(ob)] = w.n_obj(ob)
     else:
-        rfunc = lambda v: label(w.n_obj(v))
+        rfunc = lambda v: label(w.n_obj(v), style)
         for ob in objs:
-            lab[label(w.n_obj(ob))] = w.n_obj(ob)
+            lab[label(w.n_obj(ob), style)] = w.n_obj(ob)
     key = (lambda v: rank0 if v is None else rank[w.n_obj(v) - 1]) if sorted_ else None
     res = {"err": "", "none": False, "wellformed": True, "lines": []}
     try:
@@ -77,7 +84,7 @@ def plain_probe(w, S, M, sorted_, default_repr, rankmode):
         else:
             res.update(parse_plain(text, lab))
     return {"kind": "plain", "S": S, "M": list(M), "sorted": bool(sorted_), "rank": rank, "rank0": rank0,
-            "default_repr": bool(default_repr), "res": res, "text": text}
+            "default_repr": bool(default_repr), "style": style, "res": res, "text": text}
 
 
 def parse_plain(text, lab):
@@ -221,7 +228,7 @@ def run(w, S, spec):
     for mi, M in enumerate(seqs):
         if kind == "C16":
             for sorted_, dflt in itertools.product((0, 1), (0, 1)):
-                out.append(plain_probe(w, S, M, sorted_, dflt, (hv + mi) % 2))
+                out.append(plain_probe(w, S, M, sorted_, dflt, (hv + mi) % 2, style=(hv + mi + sorted_) % 3))
         elif kind == "C14":
             if any(0 in en for en in S["ends"][:S["nl"]]):
                 continue
